@@ -121,7 +121,7 @@ prop('C12',
      'the exact body text of a region; pairing when bodies contain the same switch.')
 
 prop('C09',
-     [T.r09_a, S.r09_b, S.r09_c, S.r09_d, S.r09_g, S.r09_h, S.r09_e, T.r09_struct, S.r12_d, T.r09_i, T.r19_a_precondition],
+     [T.r09_a, S.r09_b, S.r09_c, S.r09_d, S.r09_g, S.r09_j, S.r09_h, S.r09_e, T.r09_struct, S.r12_d, T.r09_i, T.r19_a_precondition],
      'Assertions on the tokenizer dispatch table for whitespace and delimiter windows, the cursor-movement summary '
      'of the whitespace reader, conservation of the whitespace token on the break paths of the argument loops, a '
      'taint rule on the whitespace variable and def-use rules on the group reader.',
@@ -178,7 +178,7 @@ prop('C13',
      'in the last line, CR handling).')
 
 prop('C14',
-     [TR.r14_a, TR.r14_b, AR.r18_d, TR.r03_c, CV.r08_e, AR.r18_e, TR.r04_b, TR.r15_b],
+     [TR.r14_a, TR.r14_b, AR.r18_d, TR.r03_c, CV.r08_e, AR.r18_e, TR.r04_b, TR.r15_b, S.r09_j],
      'MRO-resolved def-use of the delimiters of named environments, write-through rules for the node setters, the '
      'slice type of argument lists, the live-name match predicate and the lossless-serialiser rule.',
      'R14.a \\begin/\\end of a named environment are computed from its current name and the serialiser reads them '
